@@ -408,6 +408,8 @@ def run(ctx):
                 continue
             for r in recs:
                 cfg.append((mname, flux, r, ctx.tier))
+    if not th:
+        cfg += [(mname, flux, r, ctx.tier) for r in space.X1_REST for mname, flux in (("convection", None), ("euler1d", "hllc"))]
     cfg.sort(key=lambda c: c[0] != "euler1d")
     ctx.pmap("operator-1d", shard_op1d, cfg)
     first = {}
